@@ -45,6 +45,14 @@ const SPECIALS: &[&[&str]] = &[
     &["1e-9 m", "1.5e6", "123456789", "0.000001", "1_000_000 m", "0x1F", "0b101 + 0o7", "1e3 m / 1e-3 s", "NaN", "inf", "-inf"],
     &["2 m * 3", "2 * 3 m", "(2 * 3) m", "2 (3 m)", "2 m (3 s)", "2 kg m / s^2", "1 / 2 m", "1 / (2 m)", "3 m * -2", "3 - -2", "2 ^ -1 m"],
     &["unit_of(2 m)", "value_of(2 m) * unit_of(3 s)", "sqrt(4 m^2) + cbrt(8 m^3)", "sin(30°)", "mod(7, 3) + abs(-2 m) / m", "now() -> tz(\"UTC\") -> unixtime_s > 0", "datetime(\"2024-01-01 00:00:00 UTC\") + 3 days", "date(\"2024-02-29\")"],
+    // temperature sugar as an operand of another operator
+    &["from_celsius(5)^2", "celsius(300 K) + 1", "celsius(300 K)^2", "2 * celsius(300 K)", "from_celsius(celsius(300 K))", "-fahrenheit(300 K)", "from_fahrenheit(3) / 2 K", "(300 K -> °C) * 2", "1 + (2 °C) / K", "sqrt(celsius(300 K))", "[celsius(300 K), 2]"],
+    // type parameters declared in non-alphabetical order, with different bounds
+    &["fn f_tp1<Y, X: Dim>(a: X, b: Y) -> X = a", "f_tp1(1 m, \"s\")", "fn f_tp2<Y, X: Dim>(a: Y, b: X) = b", "f_tp2(true, 2 s)", "fn f_tp3<Z: Dim, A>(a: A, z: Z) = z^2", "f_tp3([1], 3 kg)", "fn f_tp4<T: Dim, S: Dim>(t: T, s: S) -> T / S = t / s", "f_tp4(6 m, 2 s)"],
+    // a unit whose primary name takes no prefixes, used through a short alias with a prefix (recorded finding)
+    &["@metric_prefixes\n@aliases(foobar_pn: none, fbpn: short)\nunit foobar_pn: Length", "2 kfbpn", "3 fbpn + 1 foobar_pn"],
+    // nested powers in dimension expressions
+    &["dimension Q_np1 = (Length^2)^3", "dimension Q_np2 = (Length²)^(1/2) / Time", "let q_np: (Length^2)^(1/2) = 2 m", "fn f_np(x: (Time^-1)^2) -> (Time^2)^-1 = x"],
 ];
 
 #[derive(Clone, Debug, Serialize, Deserialize)]
@@ -205,6 +213,14 @@ fn classify(input: &str, echo: &str, base: &str) -> String {
     }
     if echo.contains("forall ") {
         return format!("{base}:forall-in-annotation");
+    }
+    // a prefixed unit is echoed as long prefix + primary name, whatever was written: when the
+    // primary name takes no long prefixes (`@aliases(name: none, n: short)`) the echo is rejected
+    const LONG_PREFIXES: [&str; 12] = ["quecto", "yocto", "atto", "femto", "pico", "nano", "micro", "milli", "kilo", "mega", "giga", "tera"];
+    let word = |s: &str| s.split(|c: char| !(c.is_alphanumeric() || c == '_')).filter(|w| !w.is_empty()).map(|w| w.to_string()).collect::<Vec<_>>();
+    let input_words = word(input);
+    if base == "echo-not-accepted" && word(echo).iter().any(|w| LONG_PREFIXES.iter().any(|p| w.starts_with(p) && w.len() > p.len()) && !input_words.contains(w)) {
+        return format!("{base}:long-prefix-on-primary-name-that-takes-none");
     }
     let t = input.trim_start();
     if t.starts_with("unit ") && !input.contains(':') && !input.contains('=') {
